@@ -404,6 +404,15 @@ pub fn front(request: &Value) -> Value
 		{
 			Ok(r1) =>
 			{
+				out["rebuilt_raw"] = json!(r1);
+				let r1 = if request["strip_markers"].as_bool().unwrap_or(false)
+				{
+					strip_markers(&r1)
+				}
+				else
+				{
+					r1
+				};
 				let tokens2 = lexer::lex(&r1, path);
 				let lex_errors2 = tokens2.iter().filter(|t| t.result.is_err()).count();
 				let decl2 = parser::parse(tokens2);
@@ -423,12 +432,103 @@ pub fn front(request: &Value) -> Value
 				out["re_ast"] = ast_json::declarations(&decl2);
 				match rebuilder::rebuild(&decl2, &indentation)
 				{
-					Ok(r2) => out["rebuilt2"] = json!(r2),
+					Ok(r2) =>
+					{
+						let r2 = if request["strip_markers"].as_bool().unwrap_or(false)
+						{
+							strip_markers(&r2)
+						}
+						else
+						{
+							r2
+						};
+						out["rebuilt2"] = json!(r2)
+					}
 					Err(e) => out["rebuild2_error"] = json!(e.to_string()),
 				}
 			}
 			Err(e) => out["rebuild_error"] = json!(e.to_string()),
 		}
+	}
+	out
+}
+
+/// Keyed normalisation for two known annotation forms of the rebuilder
+/// (see known_findings.json, C20): `Name#?` for an unresolved structure name
+/// and `struct#Name Name` / `wordN#Name Name` in structure declarations.
+/// Exactly these forms are removed, nothing else.
+fn strip_markers(text: &str) -> String
+{
+	let is_ident = |c: char| c.is_ascii_alphanumeric() || c == '_';
+	let chars: Vec<char> = text.chars().collect();
+	let mut out = String::with_capacity(text.len());
+	let mut i = 0;
+	while i < chars.len()
+	{
+		// string and char literals are copied verbatim
+		if chars[i] == '"' || chars[i] == '\''
+		{
+			let quote = chars[i];
+			out.push(chars[i]);
+			i += 1;
+			while i < chars.len() && chars[i] != quote && chars[i] != '\n'
+			{
+				if chars[i] == '\\' && i + 1 < chars.len()
+				{
+					out.push(chars[i]);
+					i += 1;
+				}
+				out.push(chars[i]);
+				i += 1;
+			}
+			if i < chars.len()
+			{
+				out.push(chars[i]);
+				i += 1;
+			}
+			continue;
+		}
+		// Name#?
+		if chars[i] == '#'
+			&& i + 1 < chars.len()
+			&& chars[i + 1] == '?'
+			&& i > 0 && is_ident(chars[i - 1])
+		{
+			i += 2;
+			continue;
+		}
+		// struct#Name Name  /  wordN#Name Name
+		if chars[i] == '#' && i > 0
+		{
+			let before: String = out.chars().rev().take_while(|c| is_ident(*c)).collect::<String>().chars().rev().collect();
+			let is_kw = before == "struct"
+				|| (before.starts_with("word") && before[4..].chars().all(|c| c.is_ascii_digit()) && before.len() > 4);
+			if is_kw
+			{
+				let mut j = i + 1;
+				while j < chars.len() && is_ident(chars[j])
+				{
+					j += 1;
+				}
+				if j > i + 1 && j < chars.len() && chars[j] == ' '
+				{
+					let marked: String = chars[i + 1..j].iter().collect();
+					let mut k = j + 1;
+					while k < chars.len() && is_ident(chars[k])
+					{
+						k += 1;
+					}
+					let name: String = chars[j + 1..k].iter().collect();
+					if name == marked
+					{
+						i = j; // drop `#Name`, keep ` Name`
+						continue;
+					}
+				}
+			}
+		}
+		out.push(chars[i]);
+		i += 1;
 	}
 	out
 }
